@@ -2,6 +2,7 @@
 from .condprops import make_case, CTOR_VARIANTS
 
 PROP = "C10"
+EXTRA_DRAWS = 0      # the thorough tier of this property is long already: no additional draws of the generic rationals
 
 BOUNDS = {
     "quick": "five conditional kinds; (Dx,Dy) in {(1,1),(2,1),(1,2)} (identity kinds (1,1),(2,2)); R=1 with N in {1,2} observations and R=N=2; product / slice / multiply / log_integral of the returned factor; constructor variants (precision only, covariance and precision, after update_Sigma)",
